@@ -542,7 +542,7 @@ func (x *Exec) doIndexAddr(st *State, fr *Frame, v *ssa.IndexAddr) {
 	case *types.Slice:
 		s := x.term(st, v.X)
 		x.require(st, fr, "nopanic/index", and(app(SBool, "<=", mkInt(0), idx), app(SBool, "<", idx, sliceLen(s))), v.Pos(), "index out of range")
-		st.vals[v] = Val{addr: &Addr{kind: aElem, root: sliceArr(s), idx: app(SInt, "+", sliceOff(s), idx), rootT: u.Elem(), typ: u.Elem()}, typ: v.Type()}
+		st.vals[v] = Val{addr: &Addr{kind: aElem, root: sliceArr(s), idx: addT(sliceOff(s), idx), rootT: u.Elem(), typ: u.Elem()}, typ: v.Type()}
 	case *types.Pointer:
 		arr := u.Elem().Underlying().(*types.Array)
 		x.require(st, fr, "nopanic/index", and(app(SBool, "<=", mkInt(0), idx), app(SBool, "<", idx, mkInt(arr.Len()))), v.Pos(), "array index out of range")
@@ -654,9 +654,9 @@ func (x *Exec) doSlice(st *State, fr *Frame, v *ssa.Slice) {
 			goal = and(goal, app(SBool, "<=", mx, capv))
 		}
 		x.require(st, fr, "nopanic/slice", goal, v.Pos(), "slice bounds out of range")
-		newCap := app(SInt, "-", bound, lo)
+		newCap := subT(bound, lo)
 		// s[lo:hi] of a nil slice stays nil (lo=hi=0)
-		st.vals[v] = Val{T: st.name(v.Name(), mkSlice(sliceArr(s), app(SInt, "+", sliceOff(s), lo), app(SInt, "-", hi, lo), newCap)), typ: v.Type()}
+		st.vals[v] = Val{T: st.name(v.Name(), mkSlice(sliceArr(s), addT(sliceOff(s), lo), subT(hi, lo), newCap)), typ: v.Type()}
 	case *types.Pointer:
 		arr := u.Elem().Underlying().(*types.Array)
 		val := x.val(st, v.X)
@@ -672,7 +672,7 @@ func (x *Exec) doSlice(st *State, fr *Frame, v *ssa.Slice) {
 			bound = mx
 		}
 		x.require(st, fr, "nopanic/slice", and(app(SBool, "<=", mkInt(0), lo), app(SBool, "<=", lo, hi), app(SBool, "<=", hi, bound), app(SBool, "<=", bound, n)), v.Pos(), "slice bounds out of range")
-		st.vals[v] = Val{T: mkSlice(val.T, lo, app(SInt, "-", hi, lo), app(SInt, "-", bound, lo)), typ: v.Type()}
+		st.vals[v] = Val{T: mkSlice(val.T, lo, subT(hi, lo), subT(bound, lo)), typ: v.Type()}
 	default:
 		unsupported("Slice of %s", v.X.Type())
 	}
